@@ -2,9 +2,10 @@
 
 `case` is what harness/c12.py attaches to a failing step: shape, fill, the history up to and including
 the failing step (`ops`), `form` of the failing access, `lean_excluded` (the Lean driver evaluated
-`Spec.Excluded shape op` on the failing assignment), `tainted` (the dict holds a key outside the shape).
-A failure is attributed to a finding only if the Python region below AND the Lean predicate agree (for
-assignments), so that anything else stays a VIOLATION.
+`Spec.Excluded shape op` on the failing assignment: the decidable region predicate the `_partial`
+theorems exclude), `tainted` (the dict holds a key outside the shape).  A failing assignment is attributed
+to a finding only if the Python region below AND the Lean predicate agree and the observed symptom is the
+one the finding describes; anything else stays a VIOLATION.
 """
 from __future__ import annotations
 
@@ -35,9 +36,9 @@ def _normalize_slice(start, stop, step, dim):
 
 
 def neg_step_start0(shape, key):
-    """some slice of the key (short keys padded) has a negative step and a normalised start of 0 on an axis of extent > 1"""
+    """Excluded_negStepStart0: some slice of the key has a negative step and a normalised start of 0 on an axis of extent > 1"""
     for p, dim in zip(key, shape):
-        if isinstance(p, list):
+        if isinstance(p, list) and p[2] != 0:
             s = _normalize_slice(*p, dim)
             if s[2] < 0 and s[0] == 0 and dim > 1:
                 return True
@@ -45,6 +46,7 @@ def neg_step_start0(shape, key):
 
 
 def raw_index(shape, idxs):
+    """Excluded_fancyRawIndex: some entry of an index list outside [0, dim)"""
     return any(not (0 <= i < d) for l, d in zip(idxs, shape) for i in l)
 
 
@@ -60,11 +62,13 @@ def tuple_route(shape, op):
 
 
 def stores_raw(shape, op):
-    """the assignment reaches _fancy_setitem with an entry outside [0, dim)"""
+    """the assignment reaches _fancy_setitem with an entry outside [0, dim): finding id, else None"""
     if op["form"] == "fancy":
-        return raw_index(shape, op["idxs"])
+        return "F-dok-fancy-raw-index" if raw_index(shape, op["idxs"]) else None
     t = tuple_route(shape, op)
-    return t is not None and raw_index(shape, [t])
+    if t is not None and (len(t) != 1 or raw_index(shape, [t])):
+        return "F-dok-1d-int-tuple"
+    return None
 
 
 def classify(name, case, msg):
@@ -75,9 +79,9 @@ def classify(name, case, msg):
     shape = case["shape"]
     form = case.get("form")
     lean = case.get("lean_excluded")
-    accepted = "numpy accepts the assignment" in msg
-    # a dict already holding an un-normalised key (stored by an earlier integer-list assignment of this history)
-    stale = any(stores_raw(shape, o) for o in ops)
+    accepted = "numpy accepts the assignment" in msg          # DOK raised, NumPy did not
+    # an earlier assignment of this history left a key outside the shape in the dict
+    stale = next((f for f in (stores_raw(shape, o) for o in ops) if f), None)
     if name.startswith("assign:"):
         if form == "mask" and lean and accepted and ("raised IndexError" in msg or "raised ValueError" in msg):
             return "F-dok-boolmask"
@@ -88,21 +92,23 @@ def classify(name, case, msg):
                 return "F-dok-fancy-empty"
             if op["vshape"] == [1] and len(op["idxs"][0]) != 1 and accepted and "raised ValueError" in msg:
                 return "F-dok-fancy-bcast1"
-        if form == "set" and lean and op["key"] == [] and not op.get("ell") and accepted and (
-                "raised IndexError" in msg or "raised NotImplementedError" in msg):
-            return "F-dok-empty-tuple-key"
-        if form == "set" and lean and tuple_route(shape, op) is not None and stores_raw(shape, op) and not accepted:
-            return "F-dok-fancy-raw-index"
-        if form == "set" and lean and neg_step_start0(shape, op["key"]) and (
-                msg.startswith("values differ") or (accepted and "raised IndexError" in msg)):
-            # too many (or the wrong) elements are visited; with an array value that shows as an IndexError
-            # from value[v_idx] after the first elements have been stored
-            return "F-dok-negstep-start0"
+        if form == "set" and lean:
+            if op["key"] == [] and not op.get("ell") and accepted and (
+                    "raised IndexError" in msg or "raised NotImplementedError" in msg):
+                return "F-dok-empty-tuple-key"
+            t = tuple_route(shape, op)
+            if t is not None and not accepted and (len(t) != 1 or raw_index(shape, [t])):
+                # d[-1,] / d[7,] stored as given (values or nnz differ, todense fails); d[1, 2] accepted
+                return "F-dok-1d-int-tuple"
+            if neg_step_start0(shape, op["key"]) and (
+                    msg.startswith("values differ") or (accepted and "raised IndexError" in msg)):
+                # too many (or the wrong) elements are visited; with an array value that shows as an IndexError
+                # from value[v_idx] after the first elements have been stored
+                return "F-dok-negstep-start0"
         if case.get("tainted") and stale:
-            return "F-dok-fancy-raw-index"
+            return stale
         return None
     if name.startswith("read:"):
-        rd = case.get("read") or {}
         if case.get("tainted") and stale:
-            return "F-dok-fancy-raw-index"
+            return stale
     return None
